@@ -325,12 +325,15 @@ class ManualExecutor(Executor):
 class TapExecutor(Executor):
     """Transparent executor that records what passes through it."""
 
-    def __init__(self, world, name, inner):
+    def __init__(self, world, name, inner, coalesce=False):
         self.w = world
         self.name = name
         self.inner = inner
         self.futs = []
         self.shutdown_calls = []
+        # a request-coalescing delegate: every second submit() is answered with the previous future if that is still not done
+        # (returning the same Future object from two submit() calls is unusual but legal for an Executor)
+        self.coalesce = coalesce
 
     def submit(self, fn, *args, **kwargs):
         w = self.w
@@ -338,6 +341,14 @@ class TapExecutor(Executor):
         # future's lock: the done-callback that records tap_done may lag behind the state change by a pre-emption)
         nd = sum(1 for q in self.futs if q._state not in ("FINISHED", "CANCELLED", "CANCELLED_AND_NOTIFIED"))
         w.rec("tap_submit", tap=self.name, fn=getattr(fn, "name", None), not_done=nd)
+        if self.coalesce and len(self.futs) % 2 == 1 and self.futs[-1]._state in ("PENDING", "RUNNING"):
+            f = self.futs[-1]
+            self.futs.append(f)
+            idx = len(self.futs) - 1
+            w.rec("tap_submitted", tap=self.name, fn=getattr(fn, "name", None), idx=idx, coalesced=True)
+            tname, fname = self.name, getattr(fn, "name", None)
+            f.add_done_callback(lambda _f: w.rec("tap_done", tap=tname, fn=fname, idx=idx, cancelled=_f.cancelled()))
+            return f
         f = self.inner.submit(fn, *args, **kwargs)
         self.futs.append(f)
         idx = len(self.futs) - 1
@@ -713,7 +724,7 @@ class World(object):
         levels = [ex]
         for i, layer in enumerate(spec.get("layers", [])):
             if layer.get("tap"):
-                ex = TapExecutor(self, "%s.tap%d" % (name, i), ex)
+                ex = TapExecutor(self, "%s.tap%d" % (name, i), ex, coalesce=bool(layer.get("coalesce")))
                 self.exs[ex.name] = [ex]
             if spec.get("methods"):
                 ex = self.add_layer_method(ex, layer, "%s.L%d" % (name, i))
